@@ -426,6 +426,10 @@ unsafe impl GlobalAlloc for SimAlloc {
 static OUT_FD: std::sync::atomic::AtomicI32 = std::sync::atomic::AtomicI32::new(1);
 
 pub fn silence_stdout() {
+    if std::env::var_os("VSIM_KEEP_STDOUT").is_some() {
+        // triage aid: the solver's own log (when a case's config enables it) stays visible
+        return;
+    }
     unsafe {
         let saved = libc::dup(1);
         let devnull = libc::open(b"/dev/null\0".as_ptr() as *const libc::c_char, libc::O_WRONLY);
